@@ -57,12 +57,15 @@ var c10Alphabet = map[string]c10Entry{
 	"MEDIA": {model.Sym{Kind: model.SNonKeyable}, ev.Event{K: ev.Media, S: "a/b", Bs: []byte{1}}},
 	"K3":    {model.Sym{Kind: model.SKeyable, KeyID: "i:-3"}, ev.Event{K: ev.NInt, U: 3}},
 	"S2":    {model.Sym{Kind: model.SKeyable, KeyID: "s:bb"}, ev.Event{K: ev.Array, AT: events.ArrayTypeString, U: 2, Bs: []byte("bb")}},
+	// a marker with a fresh identifier (the i-th occurrence gets the identifier m<i>); markers are
+	// transparent for well-formedness: "&m1:null" is still a null
+	"MK": {model.Sym{Kind: model.SMarker}, ev.Event{K: ev.Marker}},
 }
 
 var c10Enum = []string{"BD", "V0", "V1", "ED", "NULL", "K", "K2", "F", "S", "A", "LIST", "MAP", "EDGE", "NODE", "END", "RT(a)", "RT(b)", "REC(a)", "REC(b)"}
 var c10All = func() []string {
 	out := append([]string{}, c10Enum...)
-	return append(out, "TRUE", "UID", "NAN", "BIGF", "RID", "MEDIA", "K3", "S2")
+	return append(out, "TRUE", "UID", "NAN", "BIGF", "RID", "MEDIA", "K3", "S2", "MK", "MK")
 }()
 
 // implVerdict plays the concrete events into a fresh validator: index of the first rejected event, -1 if none.
@@ -70,6 +73,9 @@ func c10Impl(syms []string) (int, error) {
 	evs := make([]ev.Event, len(syms))
 	for i, s := range syms {
 		evs[i] = c10Alphabet[s].ev
+		if s == "MK" {
+			evs[i].Bs = []byte(fmt.Sprintf("m%d", i))
+		}
 	}
 	return ev.Play(evs, ce.NewRules(nil, newCfg()))
 }
@@ -106,7 +112,7 @@ func c10NonTrivial(syms []string) bool {
 		switch s {
 		case "LIST", "MAP":
 			depth++
-		case "EDGE", "NODE", "REC(a)", "REC(b)":
+		case "EDGE", "NODE", "REC(a)", "REC(b)", "MK":
 			return true
 		case "END":
 			depth--
@@ -193,6 +199,9 @@ func init() {
 			for len(syms) < n {
 				var valid, invalid []string
 				for _, s := range c10All {
+					if s == "MK" && m.TopFrame() == "rectype" {
+						continue // whether a record-type key may carry a marker is not pinned down
+					}
 					if m.Clone().Step(c10Alphabet[s].sym) {
 						valid = append(valid, s)
 					} else {
@@ -238,6 +247,7 @@ func init() {
 			ctx.LabelIf(want < 0, "model-accepts-all")
 			ctx.LabelIf(want >= 0, "model-rejects")
 			ctx.LabelIf(len(c.Syms) > 50, "long>50")
+			ctx.LabelIf(containsStr(c.Syms, "MK"), "has-marker")
 			return c10Compare(c.Syms)
 		},
 	})
